@@ -12,7 +12,7 @@ demo() {
   if [ "$PKG" = "-" ]; then
     if [ "$ARG" = plz ]; then go build -o $WT/plz-confirm ./src && bash $SD/$RUN $WT/plz-confirm; else bash $SD/$RUN $WT; fi
   else
-    go test -count=1 -run "$RUN" ./$PKG/
+    go test -vet=off -count=1 -run "$RUN" ./$PKG/
   fi
 }
 [ "$PKG" != "-" ] && cp $SD/*_test.go $WT/$PKG/ 2>/dev/null
